@@ -38,6 +38,12 @@ def parseReq (s : String) : Option Req := do
     some { site := site.toNat, S := sS, siteCost := sc,
            rep := { surveyed := p, travel := trav, inProgress := ip ≠ 0 }, T := t,
            wx := { temp := wt, wind := ww, precip := wp } }
+  | [site, sS, p, ip, trav, t, sc, wt, ww, wp, td] =>
+    -- 11th field: the stale time_surveyed_current_day a carried-over report still holds
+    if site < 0 then none else
+    some { site := site.toNat, S := sS, siteCost := sc,
+           rep := { surveyed := p, today := td, travel := trav, inProgress := ip ≠ 0 }, T := t,
+           wx := { temp := wt, wind := ww, precip := wp } }
   | _ => none
 
 def parseEnv (s : String) : Option Envelope := do
